@@ -255,7 +255,18 @@ inline rc::Gen<ZoneSpec> zone_gen() {
       else if (how == 1 && legacy_type0 && i > 0 && prev_type != 0) nt = z.types[0];
       else if (how == 1 && z.types.size() > 1) nt = z.types[1 + *vf::index(z.types.size() - 1)];
       else if (how == 2 && i > 0) { nt = z.types[prev_type]; nt.isdst = !nt.isdst; }                 // isdst-only change
-      else if (how == 3 && i > 0) { nt = z.types[prev_type]; nt.abbr = *abbr_gen(); }                // abbreviation-only change
+      else if (how == 3 && i > 0) {                                                                  // abbreviation-only change
+        nt = z.types[prev_type];
+        const std::string old = nt.abbr;
+        switch (*vf::range<int>(0, 5)) {  // half of them to a *related* name: extended, truncated, same tail, same head
+          case 0: if (old.size() < 6) { nt.abbr = old + *rc::gen::element<std::string>("X", "0", "D", "00"); break; }  // fallthrough
+          case 1: if (old.size() > 3) { nt.abbr = old.substr(0, old.size() - 1); break; }                               // fallthrough
+          case 2: nt.abbr = (old.size() < 6 ? std::string("A") : std::string()) + old.substr(old.size() < 6 ? 0 : 1); if (nt.abbr == old) nt.abbr[0] = 'B'; break;
+          default: nt.abbr = *abbr_gen(); break;
+        }
+        if (nt.abbr.size() > 6) nt.abbr.resize(6);
+        if (nt.abbr == old) nt.abbr = *abbr_gen();
+      }
       else { nt = TypeSpec{*utoff_gen(), *vf::range<int>(0, 2) == 0, *abbr_gen()}; }
       if (how >= 4 && i > 0 && *vf::range<int>(0, 1)) {  // typical DST flip of +-1h / 30 min around the previous offset
         nt.utoff = z.types[prev_type].utoff + *rc::gen::element(3600, -3600, 1800, -1800, 7200);
